@@ -824,8 +824,8 @@ func (f *Frame) next(x *ssa.Next) Value {
 			e := c.Entries[it.idx]
 			it.idx++
 			p := And(a.G, e.P)
-			if p.IsFalse() {
-				continue
+			if p.IsFalse() || And(f.g, p).IsFalse() {
+				continue // absent on every path that reaches this iteration
 			}
 			it.Cur = e
 			it.CurG = p
